@@ -13,14 +13,14 @@ structure Inv (cfg : Cfg) (fs : Fs) (c : Nat) (msgs : List Msg) (k : Nat) : Prop
   ex : ∀ n, n < k → fs.get n ≠ none
   nex : ∀ n, k ≤ n → fs.get n = none
   cur : ∃ f, fs.get 0 = some f ∧ c = size cfg f ∧ (cfg.kind = .counted → ∀ m ∈ f, 10 ∉ m)
-  lim : ∀ n f, fs.get n = some f → size cfg f ≤ cfg.limit
+  lim : ∀ n f, fs.get n = some f → GenOk cfg f
   adj : ∀ n g g', fs.get (n + 1) = some g → fs.get n = some g' → cfg.limit < size cfg g + nextCost cfg g'
   suf : retained fs (numGen cfg) <:+ msgs
   all : k < numGen cfg → retained fs (numGen cfg) = msgs
 
 /-- a message is appended to generation 0, which has room for it -/
 theorem inv_append {cfg : Cfg} {fs fs' : Fs} {c k : Nat} {msgs : List Msg} {f : File} {m : Msg}
-    (hI : Inv cfg fs c msgs k) (h0 : fs.get 0 = some f) (hm : Admissible cfg m)
+    (hI : Inv cfg fs c msgs k) (h0 : fs.get 0 = some f) (hm : Writable cfg m)
     (hroom : size cfg f + cost cfg m ≤ cfg.limit)
     (h0' : fs'.get 0 = some (f ++ [m])) (hrest : ∀ i, 1 ≤ i → fs'.get i = fs.get i) :
     Inv cfg fs' (c + cost cfg m) (msgs ++ [m]) k := by
@@ -45,10 +45,10 @@ theorem inv_append {cfg : Cfg} {fs fs' : Fs} {c k : Nat} {msgs : List Msg} {f : 
     · intro hk x hx
       rcases List.mem_append.mp hx with hx | hx
       · exact hnl hk x hx
-      · simp at hx; subst hx; exact hm.2 hk
+      · simp at hx; subst hx; exact hm hk
   · intro n g hg
     by_cases h : n = 0
-    · subst h; rw [h0'] at hg; cases hg; rw [size_append]; exact hroom
+    · subst h; rw [h0'] at hg; cases hg; left; rw [size_append]; exact hroom
     · rw [hrest n (by omega)] at hg; exact hI.lim n g hg
   · intro n g g' hg hg'
     rw [hrest (n + 1) (by omega)] at hg
@@ -69,10 +69,10 @@ theorem inv_append {cfg : Cfg} {fs fs' : Fs} {c k : Nat} {msgs : List Msg} {f : 
   · intro hk; rw [hret, hI.all hk]
 
 /-- the generations are rolled and generation 0 starts again with `g0` (empty, or the message that did not
-    fit) -/
+    fit — which may be longer than a whole generation) -/
 theorem inv_roll {cfg : Cfg} {fs fs' : Fs} {c k : Nat} {msgs : List Msg} {f g0 : File}
     (hI : Inv cfg fs c msgs k) (h0 : fs.get 0 = some f)
-    (hg0 : g0 = [] ∨ ∃ m, g0 = [m] ∧ Admissible cfg m)
+    (hg0 : g0 = [] ∨ ∃ m, g0 = [m] ∧ Writable cfg m)
     (hfull : cfg.limit < size cfg f + nextCost cfg g0)
     (h0' : fs'.get 0 = some g0)
     (hshift : ∀ i, 1 ≤ i → i < numGen cfg → fs'.get i = fs.get (i - 1))
@@ -89,10 +89,10 @@ theorem inv_roll {cfg : Cfg} {fs fs' : Fs} {c k : Nat} {msgs : List Msg} {f g0 :
     have := retained_suffix_succ fs (numGen cfg - 1)
     have e : numGen cfg - 1 + 1 = numGen cfg := by omega
     rw [e] at this; exact this
-  have hg0size : size cfg g0 ≤ cfg.limit := by
+  have hg0ok : GenOk cfg g0 := by
     rcases hg0 with h | ⟨m, h, hm⟩
-    · subst h; simp
-    · subst h; rw [size_single]; exact hm.1
+    · subst h; left; simp
+    · subst h; right; rfl
   refine ⟨by omega, by omega, ?_, ?_, ?_, ?_, ?_, ?_, ?_⟩
   · intro n hn
     by_cases h : n = 0
@@ -106,10 +106,10 @@ theorem inv_roll {cfg : Cfg} {fs fs' : Fs} {c k : Nat} {msgs : List Msg} {f g0 :
     intro hk x hx
     rcases hg0 with h | ⟨m, h, hm⟩
     · subst h; simp at hx
-    · subst h; simp at hx; subst hx; exact hm.2 hk
+    · subst h; simp at hx; subst hx; exact hm hk
   · intro n g hg
     by_cases h : n = 0
-    · subst h; rw [h0'] at hg; cases hg; exact hg0size
+    · subst h; rw [h0'] at hg; cases hg; exact hg0ok
     · by_cases h2 : numGen cfg ≤ n
       · rw [hbeyond n h2] at hg; cases hg
       · rw [hshift n (by omega) (by omega)] at hg; exact hI.lim (n - 1) g hg
